@@ -74,6 +74,8 @@ func c02(c *Ctx) {
 	r.Rule("R02.X", "the flags word is written / read at the position FlagIndex() says: the PutUint / PopUint of the struct walk is reachable only through the equal edge of a comparison with the FlagIndex() result", 2)
 	tr := an.NewTracer()
 	c02FlagsPosition(c, tr, "R02.X")
+	r.Rule("R02.O", "the bytes tl.Marshal returns stay what they were: they belong to a buffer made by the call and kept by nobody else (no pool, no package variable)", 1)
+	c.marshalOwnsResult("R02.O")
 
 	// ---- R02.L ----------------------------------------------------------------------------------
 	pp, err := c.Pop()
